@@ -51,6 +51,9 @@ type kase struct {
 	EvGI string   `json:"evgi"`
 	Ev   []string `json:"ev,omitempty"`   // event generations to run ("etrog","pre"); default both
 	Pick *int     `json:"pick,omitempty"` // the frame the code-shaped model picks (passed through for drift statistics)
+	// SameTx: the transaction of the previous event is included again (another block, after a reorg) and executes as this
+	// case's call tree this time: same transaction hash, different trace
+	SameTx bool `json:"sametx,omitempty"`
 }
 
 var (
@@ -327,7 +330,7 @@ func Run(args []string) error {
 
 	ctx := context.Background()
 	blk := uint64(0)
-	prev := common.Hash{}
+	prev, lastTx := common.Hash{}, common.Hash{}
 	for id, c := range cs {
 		raw, err := e.tree(c)
 		if err != nil {
@@ -342,6 +345,10 @@ func Run(args []string) error {
 			var nb [8]byte
 			binary.BigEndian.PutUint64(nb[:], blk)
 			txHash := crypto.Keccak256Hash([]byte("verif-c20-tx"), nb[:])
+			if c.SameTx && lastTx != (common.Hash{}) {
+				txHash = lastTx
+			}
+			lastTx = txHash
 			bhash := crypto.Keccak256Hash([]byte("verif-c20-block"), nb[:])
 			l, err := claimLog(e, gen, c.EvGI, txHash, blk, bhash)
 			if err != nil {
@@ -359,7 +366,7 @@ func Run(args []string) error {
 			if client.bad != "" {
 				return fmt.Errorf("case %d: %s", id, client.bad)
 			}
-			if client.traceCalls != 1 {
+			if client.traceCalls > 1 {
 				return fmt.Errorf("case %d: %d debug_traceTransaction calls", id, client.traceCalls)
 			}
 			// what the EVM driver does with a downloaded block
@@ -381,7 +388,8 @@ func Run(args []string) error {
 				tb[i] = toBridge(c.Kind[i])
 			}
 			line := tr.M{"ev": "case", "id": id, "evgen": gen, "evgi": c.EvGI, "par": c.Par, "kind": c.Kind, "tb": tb,
-				"gi": c.GI, "rev": c.Rev, "err": herr != nil, "errmsg": "", "appended": len(b.Events), "rows": rows, "pick": -1}
+				"gi": c.GI, "rev": c.Rev, "err": herr != nil, "errmsg": "", "appended": len(b.Events), "rows": rows, "pick": -1,
+				"traced": client.traceCalls, "sametx": c.SameTx}
 			if herr != nil {
 				line["errmsg"] = herr.Error()
 			}
